@@ -216,6 +216,10 @@ func v64Arg() uint64 {
 func v64Range() (uint64, uint64) {
 	s := uint64(vsym.Param("sh"))<<32 + uint64(vsym.Param("sb")) + (vsym.U64() & uint64(vsym.Param("sm")))
 	e := s + (vsym.U64() & uint64(vsym.Param("len")))
+	if eh := vsym.Param("eh"); eh > 0 {
+		// long ranges: the end lies eh buckets further up
+		e = uint64(vsym.Param("sh")+eh)<<32 + (vsym.U64() & uint64(vsym.Param("len")))
+	}
 	return s, e
 }
 
@@ -328,6 +332,13 @@ func VerifC17Op() {
 			vsym.Assert(a.Equals(keep), "argument-modified")
 		}
 		v64Wf(r)
+		if vsym.Param("eh") > 0 {
+			// whole buckets inside the range: the contents are billions of values; only the structure of the result (sorted
+			// bucket keys, no empty bucket, parallel slices) and the untouched argument are asserted here
+			vsym.Observe(uint64(len(r.highlowcontainer.keys)))
+			vsym.Reach("end")
+			return
+		}
 		z := v64Arg()
 		want := false
 		switch op {
